@@ -13,6 +13,10 @@
  *   stack   in {default (memory pool), malloc'ed 40008 bytes, malloc'ed 1 MiB}
  *   named   in {unnamed, named and freed by the primary afterwards}
  *   where   in {primary stream, second stream}
+ *   joiner  in {the primary ULT (ABT_thread_free joins), an EXTERNAL thread
+ *               that is inside ABT_thread_join before U ends (futex joiner:
+ *               the abnormal endings wake it through
+ *               ABTI_ythread_resume_joiner, not through the normal exit path)}
  * Oracle: the unit's body ran once up to the ending and not beyond; the target
  * of a directed exit runs next and exactly once; no sanitizer report, no bad
  * free, ledger empty after ABT_finalize. */
@@ -27,6 +31,21 @@ static int ending, stki, named, on_es1;
 static ABT_thread U, T;
 static ABT_pool scratch;
 static int u_before, u_after, t_runs, t_resumed, u_yielded;
+static int xjoin, x_joining, x_done;
+
+/* external joiner: announces itself, then blocks in ABT_thread_join(U) */
+static void x_fn(void *arg)
+{
+    (void)arg;
+    ABT_thread_state st;
+    abtmc_store(&x_joining, 1);
+    OK(ABT_thread_join(U));
+    OK(ABT_thread_get_state(U, &st));
+    abtmc_check(st == ABT_THREAD_STATE_TERMINATED, "join_before_terminated",
+                "external joiner of a unit ending by %s returned while the "
+                "unit's state is %d", ename[ending], (int)st);
+    abtmc_store(&x_done, 1);
+}
 
 static void t_fn(void *arg)
 {
@@ -45,6 +64,8 @@ static void u_fn(void *arg)
     for (int i = 0; i < 256; i++)
         pad[i] = (char)i;
     u_before++;
+    if (xjoin) /* end only once the external joiner is on its way in */
+        abtmc_wait_until_eq(&x_joining, 1);
     switch (ending) {
         case E_RETURN: return;
         case E_SELF_EXIT: ABT_self_exit(); break;
@@ -92,6 +113,8 @@ static void scenario(int cfg)
      * valid) */
     if (ending == E_CANCEL)
         named = 1;
+    xjoin = named ? abtmc_choose(2, ABTMC_B_FREE) : 0;
+    int xt = -1;
 
     if (ending == E_EXIT_TO) {
         /* a READY target that is in no pool */
@@ -111,9 +134,13 @@ static void scenario(int cfg)
     if (at != ABT_THREAD_ATTR_NULL)
         OK(ABT_thread_attr_free(&at));
 
+    if (xjoin)
+        xt = abtmc_thread_create(x_fn, NULL);
     if (ending == E_CANCEL) {
         while (abtmc_load(&u_yielded) == 0)
             OK(ABT_thread_yield());
+        if (xjoin)
+            abtmc_wait_until_eq(&x_joining, 1);
         OK(ABT_thread_cancel(U));
     }
     if (ending == E_EXIT_TO || ending == E_RESUME_EXIT_TO) {
@@ -124,6 +151,20 @@ static void scenario(int cfg)
             abtmc_check(t_resumed == 1, "target_run_count", "T resumed %d times",
                         t_resumed);
         OK(ABT_thread_free(&T));
+    }
+    if (xjoin) {
+        /* U lives on this stream: keep scheduling until it has ended; then
+         * (or at once, if U runs on the other stream) wait for the joiner */
+        while (!on_es1) {
+            ABT_thread_state st;
+            OK(ABT_thread_get_state(U, &st));
+            if (st == ABT_THREAD_STATE_TERMINATED)
+                break;
+            abtmc_progress();
+            OK(ABT_thread_yield());
+        }
+        abtmc_wait_until_eq(&x_done, 1);
+        abtmc_thread_join(xt);
     }
     if (named) {
         OK(ABT_thread_free(&U)); /* joins first */
@@ -142,8 +183,8 @@ static void scenario(int cfg)
     else
         abtmc_check(u_after == 0, "exit_returned", "%s returned to its caller",
                     ename[ending]);
-    abtmc_observe("%s stk%d %s es%d", ename[ending], stki, named ? "named" : "unnamed",
-                  on_es1);
+    abtmc_observe("%s stk%d %s es%d%s", ename[ending], stki, named ? "named" : "unnamed",
+                  on_es1, xjoin ? " xjoin" : "");
     {
         ABT_xstream_state st;
         OK(ABT_xstream_get_state(es1, &st));
@@ -157,7 +198,7 @@ static void scenario(int cfg)
                 abtmc_ledger_live());
 }
 
-static const char *cfg_name(int i) { (void)i; return "ending x stack x named x stream"; }
+static const char *cfg_name(int i) { (void)i; return "ending x stack x named x stream x joiner"; }
 static int cfg_quick(int i) { (void)i; return 1; }
 
 int main(int argc, char **argv)
